@@ -269,7 +269,7 @@ Definition free_or_panic (v : vam) (s : Z) : vam * out unit :=
   if negb (a_allocated a) then (v, PANIC)
   else if negb (a_kind a =? 1) then (v, PANIC)
   else
-    let '(v1, r) := bl_free c v (a_lref a) s in
+    let '(v1, r) := bl_free c v (a_lref a) s false in
     match r with
     | OK _ => (set_alloc v1 s (set_allocated (get_alloc v1 s) false), OK tt)
     | STUCK => (v1, STUCK)
